@@ -130,7 +130,9 @@ func decodeLine(line []byte) (*Entry, error) {
 		return nil, fmt.Errorf("invalid signature in reflog entry")
 	}
 
-	e.Committer.Name = string(bytes.TrimSpace(sigBytes[:open]))
+	// Git strips only SP, HT, LF and CR around the name; other Unicode
+	// spaces (e.g. a trailing NBSP) belong to it.
+	e.Committer.Name = string(bytes.Trim(sigBytes[:open], " \t\n\r"))
 	e.Committer.Email = string(sigBytes[open+1 : closeBracket])
 
 	// Parse timestamp and timezone after '> '
